@@ -70,6 +70,106 @@ type universe struct {
 	truH   []chainhash.Hash // true filter header by height
 	ftip   int              // current filter tip in the store
 	cur    []chainhash.Hash // currently committed filter headers by height
+
+	// chain B: another branch above height forkAt (same length as A), with its own
+	// blocks, true filters and filter headers; [h] valid for forkAt < h <= uniBlocks
+	bHashes []chainhash.Hash
+	bHeight map[chainhash.Hash]int
+	bHdrs   []wire.BlockHeader
+	bF      []*gcs.Filter
+	bH      []chainhash.Hash
+	onB     bool // the stores currently hold branch B above forkAt
+	bTip    int  // block tip while on B
+}
+
+// forkAt is the last height common to the chains A and B.
+const forkAt = uniBlocks - 12
+
+// altBase + h names the block of branch B at height h.
+const altBase = 500000
+
+// hookStore is the real block-header store with a hook that runs right after the
+// first FetchHeader (by hash) call, i.e. between the by-hash lookup and the
+// by-height lookups of prepareCFiltersQuery.
+type hookStore struct {
+	headerfs.BlockHeaderStore
+	onFetch func()
+}
+
+func (s *hookStore) FetchHeader(h *chainhash.Hash) (*wire.BlockHeader, uint32, error) {
+	hd, ht, err := s.BlockHeaderStore.FetchHeader(h)
+	if f := s.onFetch; f != nil {
+		s.onFetch = nil
+		f()
+	}
+	return hd, ht, err
+}
+
+// reorgToB replaces, in the REAL stores, the blocks above forkAt by nb blocks of
+// branch B and commits B's filter headers (all but the last `lag`).
+func (u *universe) reorgToB(nb, lag int) {
+	// as rollBackToHeight does: filter headers first (the hash index is shared), then block headers
+	for u.ftip > forkAt {
+		if _, err := u.fs.RollbackLastBlock(&u.hashes[u.ftip-1]); err != nil {
+			panic(err)
+		}
+		u.ftip--
+	}
+	for i := uniBlocks; i > forkAt; i-- {
+		if _, err := u.bs.RollbackLastBlock(); err != nil {
+			panic(err)
+		}
+	}
+	var bh []headerfs.BlockHeader
+	for h := forkAt + 1; h <= forkAt+nb; h++ {
+		hd := u.bHdrs[h]
+		bh = append(bh, headerfs.BlockHeader{BlockHeader: &hd, Height: uint32(h)})
+	}
+	if err := u.bs.WriteHeaders(bh...); err != nil {
+		panic(err)
+	}
+	var fh []headerfs.FilterHeader
+	for h := forkAt + 1; h <= forkAt+nb-lag; h++ {
+		fh = append(fh, headerfs.FilterHeader{HeaderHash: u.bHashes[h], FilterHash: u.bH[h], Height: uint32(h)})
+	}
+	if len(fh) > 0 {
+		if err := u.fs.WriteHeaders(fh...); err != nil {
+			panic(err)
+		}
+	}
+	u.cur = append(append([]chainhash.Hash{}, u.truH[:forkAt+1]...), u.bH[forkAt+1:forkAt+nb-lag+1]...)
+	u.ftip = forkAt + nb - lag
+	u.onB, u.bTip = true, forkAt+nb
+}
+
+// restoreA puts branch A back.
+func (u *universe) restoreA() {
+	for u.ftip > forkAt {
+		nt := u.hashes[u.ftip-1]
+		if u.ftip-1 > forkAt {
+			nt = u.bHashes[u.ftip-1]
+		}
+		if _, err := u.fs.RollbackLastBlock(&nt); err != nil {
+			panic(err)
+		}
+		u.ftip--
+	}
+	for i := u.bTip; i > forkAt; i-- {
+		if _, err := u.bs.RollbackLastBlock(); err != nil {
+			panic(err)
+		}
+	}
+	var bh []headerfs.BlockHeader
+	for h := forkAt + 1; h <= uniBlocks; h++ {
+		hd := u.blocks[h].Header
+		bh = append(bh, headerfs.BlockHeader{BlockHeader: &hd, Height: uint32(h)})
+	}
+	if err := u.bs.WriteHeaders(bh...); err != nil {
+		panic(err)
+	}
+	u.onB = false
+	u.cur = u.cur[:forkAt+1]
+	u.setFilterHeaders(forkAt+1, u.truH[forkAt+1:])
 }
 
 var uni *universe
@@ -181,6 +281,38 @@ func getUniverse(r *rand.Rand) *universe {
 	}
 	u.ftip = uniBlocks
 	u.cur = append([]chainhash.Hash{}, u.truH...)
+	// branch B above forkAt
+	u.bHashes = make([]chainhash.Hash, uniBlocks+1)
+	u.bHdrs = make([]wire.BlockHeader, uniBlocks+1)
+	u.bF = make([]*gcs.Filter, uniBlocks+1)
+	u.bH = make([]chainhash.Hash, uniBlocks+1)
+	u.bHeight = map[chainhash.Hash]int{}
+	bprev, bprevH := u.hashes[forkAt], u.truH[forkAt]
+	for i := forkAt + 1; i <= uniBlocks; i++ {
+		h := u.blocks[i].Header
+		h.PrevBlock = bprev
+		h.Nonce += 7777777
+		b := wire.NewMsgBlock(&h)
+		cb := wire.NewMsgTx(2)
+		cb.AddTxIn(wire.NewTxIn(wire.NewOutPoint(&chainhash.Hash{}, wire.MaxPrevOutIndex), []byte{0x03, byte(i), byte(i >> 8), 0xbb}, nil))
+		cb.AddTxOut(wire.NewTxOut(50_0000_0000, script(r)))
+		b.AddTransaction(cb)
+		b.Header.MerkleRoot = cb.TxHash()
+		f, err := builder.BuildBasicFilter(b, nil)
+		if err != nil {
+			panic(err)
+		}
+		fhdr, err := builder.MakeHeaderForFilter(f, bprevH)
+		if err != nil {
+			panic(err)
+		}
+		u.bHdrs[i] = b.Header
+		u.bHashes[i] = b.Header.BlockHash()
+		u.bHeight[u.bHashes[i]] = i
+		u.bF[i] = f
+		u.bH[i] = fhdr
+		bprev, bprevH = u.bHashes[i], fhdr
+	}
 	uni = u
 	return u
 }
@@ -285,6 +417,8 @@ func (d *disp) Query(reqs []*query.Request, _ ...query.QueryOption) chan error {
 		if m, ok := reqs[0].Req.(*wire.MsgGetCFilters); ok && m.FilterType == wire.GCSFilterRegular {
 			if sh, ok := d.u.height[m.StopHash]; ok {
 				d.rg = fmt.Sprintf("%d:%d", m.StartHeight, sh)
+			} else if sh, ok := d.u.bHeight[m.StopHash]; ok {
+				d.rg = fmt.Sprintf("%d:%d", m.StartHeight, sh)
 			}
 		}
 	}
@@ -318,6 +452,8 @@ func (d *disp) Query(reqs []*query.Request, _ ...query.QueryOption) chan error {
 }
 
 type world struct {
+	quitUsed bool // a "quit" verdict closed the service's quit channel
+	hook    *hookStore
 	u       *universe
 	dir     string
 	db      walletdb.DB
@@ -355,6 +491,9 @@ func newWorld(r *rand.Rand, cap uint64, persist bool) *world {
 	for i, h := range u.truH {
 		w.hid[h] = i + 1
 	}
+	for i := forkAt + 1; i <= uniBlocks; i++ {
+		w.hid[u.bH[i]] = 300000 + i + 1 // filter headers of branch B
+	}
 	w.boot()
 	return w
 }
@@ -367,8 +506,9 @@ func (w *world) boot() {
 	}
 	w.cache = lru.NewCache[neutrino.FilterCacheKey, *neutrino.CacheableFilter](w.cap)
 	w.d = &disp{u: w.u}
+	w.hook = &hookStore{BlockHeaderStore: w.u.bs}
 	w.cs = neutrino.VerifNewQueryService(neutrino.VerifQueryParts{
-		Params: params, BlockHeaders: w.u.bs, RegFilterHeaders: w.u.fs, FilterDB: w.fdb, FilterCache: w.cache,
+		Params: params, BlockHeaders: w.hook, RegFilterHeaders: w.u.fs, FilterDB: w.fdb, FilterCache: w.cache,
 		WorkManager: w.d, PersistToDisk: w.persist, BatchWriterTick: w.tick,
 	})
 	w.d.cs = w.cs
@@ -404,6 +544,9 @@ func (w *world) blkID(h chainhash.Hash) int {
 	if i, ok := w.u.height[h]; ok {
 		return i
 	}
+	if i, ok := w.u.bHeight[h]; ok {
+		return altBase + i
+	}
 	if id, ok := w.bid[h]; ok {
 		return id
 	}
@@ -412,21 +555,52 @@ func (w *world) blkID(h chainhash.Hash) int {
 	return id
 }
 
-// verified: this driver's own check of a filter against the CURRENT store.
-func (w *world) verified(height int, f *gcs.Filter) bool {
-	if height < 0 || height > w.u.ftip || f == nil {
+// committedFor returns the committed (previous header, header) pair of a block:
+// for a block of the chain the stores currently hold, what the real filter-header
+// store returns by height; for a block that was reorganised away, what was
+// committed for it while it was on the chain.
+func (w *world) committedFor(blk int) (prev, cur chainhash.Hash, ok bool) {
+	u := w.u
+	if blk > altBase { // branch B
+		h := blk - altBase
+		if h <= forkAt || h > uniBlocks {
+			return prev, cur, false
+		}
+		prev = u.truH[forkAt]
+		if h-1 > forkAt {
+			prev = u.bH[h-1]
+		}
+		return prev, u.bH[h], true
+	}
+	height := blk
+	if u.onB && height > forkAt && height <= uniBlocks {
+		return u.truH[height-1], u.truH[height], true
+	}
+	if height < 0 || height > u.ftip {
+		return prev, cur, false
+	}
+	if height > 0 {
+		p, err := u.fs.FetchHeaderByHeight(uint32(height - 1))
+		if err != nil {
+			return prev, cur, false
+		}
+		prev = *p
+	}
+	c, err := u.fs.FetchHeaderByHeight(uint32(height))
+	if err != nil {
+		return prev, cur, false
+	}
+	return prev, *c, true
+}
+
+// verified: this driver's own check that a filter hashes with the committed
+// previous header to the committed header of THAT block.
+func (w *world) verified(blk int, f *gcs.Filter) bool {
+	if f == nil {
 		return false
 	}
-	prev := &chainhash.Hash{}
-	var err error
-	if height > 0 {
-		prev, err = w.u.fs.FetchHeaderByHeight(uint32(height - 1))
-		if err != nil {
-			return false
-		}
-	}
-	cur, err := w.u.fs.FetchHeaderByHeight(uint32(height))
-	if err != nil {
+	prev, cur, ok := w.committedFor(blk)
+	if !ok {
 		return false
 	}
 	nb, err := f.NBytes()
@@ -437,8 +611,34 @@ func (w *world) verified(height int, f *gcs.Filter) bool {
 	if err != nil {
 		return false
 	}
-	got, err := builder.MakeHeaderForFilter(cp, *prev)
-	return err == nil && got == *cur
+	got, err := builder.MakeHeaderForFilter(cp, prev)
+	return err == nil && got == cur
+}
+
+// onChain: the real block-header store knows the hash (it is on the chain the
+// stores hold now).
+func (w *world) onChain(h chainhash.Hash) bool {
+	_, _, err := w.u.bs.FetchHeader(&h)
+	return err == nil
+}
+
+// otherBlocksFilter: the bytes are the ground-truth filter of the block that sits
+// at the same height on the other branch, and not that of the block itself.
+func (w *world) otherBlocksFilter(blk int, f *gcs.Filter) bool {
+	u := w.u
+	h := blk
+	if blk > altBase {
+		h = blk - altBase
+	}
+	if f == nil || h <= forkAt || h > uniBlocks {
+		return false
+	}
+	nb := nbytes(f)
+	a, b := nbytes(u.truF[h]), nbytes(u.bF[h])
+	if blk > altBase {
+		a, b = b, a
+	}
+	return string(nb) == string(b) && string(nb) != string(a)
 }
 
 func b01(b bool) string {
@@ -457,7 +657,13 @@ func (w *world) mkCF(t *tr.W, ftype wire.FilterType, bh chainhash.Hash, data []b
 		dec = true
 		nb, _ := f.NBytes()
 		fid = w.filterID(nb)
-		if blk >= 1 && blk <= w.u.ftip+1 && blk-1 < len(w.u.cur) {
+		if blk > altBase {
+			if p, _, ok := w.committedFor(blk); ok {
+				if x, err := builder.MakeHeaderForFilter(f, p); err == nil {
+					prev, hdr = w.hdrID(p), w.hdrID(x)
+				}
+			}
+		} else if blk >= 1 && blk <= w.u.ftip+1 && blk-1 < len(w.u.cur) {
 			p := w.u.cur[blk-1]
 			if x, err := builder.MakeHeaderForFilter(f, p); err == nil {
 				prev, hdr = w.hdrID(p), w.hdrID(x)
@@ -586,6 +792,8 @@ func (w *world) dump() (string, string) {
 		var bh chainhash.Hash
 		if h >= 0 && h <= uniBlocks {
 			bh = w.u.hashes[h]
+		} else if h > altBase && h-altBase <= uniBlocks {
+			bh = w.u.bHashes[h-altBase]
 		} else {
 			for k, id := range w.bid {
 				if id == h {
@@ -612,6 +820,7 @@ func (w *world) dump() (string, string) {
 func (w *world) get(t *tr.W, target int, th chainhash.Hash, regular bool, batch string, maxBatch int64, cont bool, verdict string, resps []resp) string {
 	d := w.d
 	d.resps, d.cont, d.verdict, d.prog, d.nq, d.rg = resps, cont, verdict, nil, 0, "-"
+	w.quitUsed = w.quitUsed || verdict == "quit"
 	var opts []neutrino.QueryOption
 	switch batch {
 	case "f":
@@ -633,7 +842,7 @@ func (w *world) get(t *tr.W, target int, th chainhash.Hash, regular bool, batch 
 	go func() {
 		defer func() {
 			if e := recover(); e != nil {
-				ch <- callRes{err: fmt.Errorf("PANIC %v", e)}
+				fmt.Fprintln(os.Stderr, "PANIC in GetCFilter:", e); ch <- callRes{err: fmt.Errorf("PANIC %v", e)}
 			}
 		}()
 		f, err := w.cs.GetCFilter(th, ft, opts...)
@@ -644,7 +853,10 @@ func (w *world) get(t *tr.W, target int, th chainhash.Hash, regular bool, batch 
 	case cr := <-ch:
 		switch {
 		case cr.err == nil && cr.f != nil:
-			res = fmt.Sprintf("ret:%d:%s", w.filterID(nbytes(cr.f)), b01(w.verified(target, cr.f)))
+			// v: the requested hash is on the chain the stores hold and the filter hash-chains to the
+			// committed header of THAT block; 4th field: it is the true filter of the other branch's block
+			res = fmt.Sprintf("ret:%d:%s:%s", w.filterID(nbytes(cr.f)), b01((target > uniBlocks || w.onChain(th)) && w.verified(target, cr.f)),
+				b01(w.otherBlocksFilter(target, cr.f)))
 		case cr.err == nil:
 			res = "err:nilnil"
 		case cr.err == errScript:
@@ -729,6 +941,9 @@ func runCase(t *tr.W, r *rand.Rand, mode string) {
 	u := w.u
 	defer func() {
 		w.close()
+		if u.onB {
+			u.restoreA()
+		}
 		if u.ftip != uniBlocks || mode == "recommit" {
 			u.setFilterHeaders(uniBlocks-40, u.truH[uniBlocks-40:])
 		}
@@ -750,6 +965,10 @@ func runCase(t *tr.W, r *rand.Rand, mode string) {
 	}
 	if mode == "recommit" {
 		base = uniBlocks - 3 - r.Intn(20)
+	}
+	if mode == "reorg" {
+		base = uniBlocks - 2 - r.Intn(12)
+		defer w.reorgCall(t, r)
 	}
 	for j := 0; j < nops; j++ {
 		if mode == "recommit" && j > 0 && r.Intn(3) == 0 {
@@ -1009,6 +1228,85 @@ func runCase(t *tr.W, r *rand.Rand, mode string) {
 	}
 }
 
+// reorgCall is the last call of a "reorg" case: between the by-hash lookup of the
+// requested block and the by-height lookups of prepareCFiltersQuery the REAL
+// stores are reorganised onto branch B (hookStore).  The peers then serve the
+// new chain (and, for contrast, the old one).
+func (w *world) reorgCall(t *tr.W, r *rand.Rand) {
+	u := w.u
+	if u.onB || u.ftip != uniBlocks || w.quitUsed {
+		return
+	}
+	nb := uniBlocks - forkAt - r.Intn(3) // length of branch B above the fork
+	lag := 0
+	if r.Intn(4) == 0 {
+		lag = 1
+	}
+	target := forkAt + 1 + r.Intn(nb)
+	switch r.Intn(6) {
+	case 0:
+		target = forkAt - r.Intn(2) // below the fork: the same block on both branches
+	case 1:
+		target = uniBlocks - r.Intn(2) // maybe above the new tip
+	}
+	th := u.hashes[target]
+	batch := []string{"n", "n", "f", "r"}[r.Intn(4)]
+	maxBatch := int64(1 + r.Intn(6))
+	cont := r.Intn(6) == 0
+	verdict := "nil"
+	if r.Intn(10) == 0 {
+		verdict = "err"
+	}
+	lo, hi := aim(target, forkAt+nb-lag, batch, maxBatch)
+	var resps []resp
+	bOf := func(h int) resp {
+		if h > forkAt {
+			return w.mkCF(t, wire.GCSFilterRegular, u.bHashes[h], nbytes(u.bF[h]), "good")
+		}
+		return w.mkCF(t, wire.GCSFilterRegular, u.hashes[h], nbytes(u.truF[h]), "good")
+	}
+	aOf := func(h int) resp { return w.mkCF(t, wire.GCSFilterRegular, u.hashes[h], nbytes(u.truF[h]), "oldbranch") }
+	for h := lo; h <= hi && h <= uniBlocks; h++ {
+		switch r.Intn(6) {
+		case 0:
+			resps = append(resps, aOf(h), bOf(h))
+		case 1:
+			// branch B's block answered with branch A's filter and the other way round
+			if h > forkAt {
+				resps = append(resps, w.mkCF(t, wire.GCSFilterRegular, u.bHashes[h], nbytes(u.truF[h]), "crossed"),
+					w.mkCF(t, wire.GCSFilterRegular, u.hashes[h], nbytes(u.bF[h]), "crossed"))
+			}
+			resps = append(resps, bOf(h))
+		case 2:
+			if r.Intn(2) == 0 {
+				resps = append(resps, w.mkResp(t, r, h, lo, hi))
+			}
+			resps = append(resps, bOf(h))
+		default:
+			resps = append(resps, bOf(h))
+		}
+	}
+	if r.Intn(3) == 0 {
+		r.Shuffle(len(resps), func(a, b int) { resps[a], resps[b] = resps[b], resps[a] })
+	}
+	toks := make([]string, len(resps))
+	for i, rp := range resps {
+		toks[i] = rp.tok
+	}
+	fired := false
+	w.hook.onFetch = func() { fired = true; u.reorgToB(nb, lag) }
+	obs := w.get(t, target, th, true, batch, maxBatch, cont, verdict, resps)
+	w.hook.onFetch = nil
+	if fired {
+		t.Hit("cf.op.reorg-during-prepare")
+		t.Op(fmt.Sprintf("getreorg %d %d %d %d 1 %s %d %s %s [%s]", forkAt, forkAt+nb, forkAt+nb-lag, target, batch, maxBatch,
+			b01(cont), verdict, strings.Join(toks, " ")), obs)
+	} else {
+		// answered from the cache or the database: prepareCFiltersQuery never ran
+		t.Op(fmt.Sprintf("get %d 1 %s %d %s %s [%s]", target, batch, maxBatch, b01(cont), verdict, strings.Join(toks, " ")), obs)
+	}
+}
+
 func init() {
 	tr.Register("filter", func(t *tr.W, thorough bool) {
 		r := tr.Rng(5)
@@ -1026,6 +1324,8 @@ func init() {
 				runCase(t, r, "big")
 			case i%5 == 3:
 				runCase(t, r, "recommit")
+			case i%5 == 1:
+				runCase(t, r, "reorg")
 			default:
 				runCase(t, r, "plain")
 			}
